@@ -177,14 +177,14 @@ func c18Reprs(n c18Node, t c18Tpl) []string {
 				out = append(out, "float32")
 			}
 		}
-		out = append(out, "drop", "pdrop")
+		out = append(out, "drop", "pdrop", "drop-of-drop")
 		if ptrOK {
-			out = append(out, "ptr")
+			out = append(out, "ptr", "ptr-to-ptr", "ptr-to-pdrop", "ptr-to-drop")
 		}
 	case string:
-		out = append(out, "drop", "pdrop")
+		out = append(out, "drop", "pdrop", "drop-of-drop")
 		if ptrOK {
-			out = append(out, "ptr")
+			out = append(out, "ptr", "ptr-to-ptr", "ptr-to-pdrop", "ptr-to-drop")
 		}
 		if !t.noBytes && n.top {
 			out = append(out, "bytes")
@@ -194,16 +194,18 @@ func c18Reprs(n c18Node, t c18Tpl) []string {
 		if c18Homogeneous(x) != "" {
 			out = append(out, "typed", "array")
 		}
+		out = append(out, "drop-of-drop")
 		if ptrOK {
-			out = append(out, "ptr")
+			out = append(out, "ptr", "ptr-to-ptr", "ptr-to-pdrop", "ptr-to-drop")
 		}
 	case *ref.Map:
 		out = append(out, "drop", "pdrop")
 		if c18HomogeneousMap(x) != "" {
 			out = append(out, "typed")
 		}
+		out = append(out, "drop-of-drop")
 		if ptrOK {
-			out = append(out, "ptr")
+			out = append(out, "ptr", "ptr-to-ptr", "ptr-to-pdrop", "ptr-to-drop")
 		}
 		if !t.noMapSlice {
 			out = append(out, "mapslice")
@@ -372,6 +374,20 @@ func c18Build(path string, v ref.V, devs map[string]string) any {
 		p := reflect.New(reflect.TypeOf(base))
 		p.Elem().Set(reflect.ValueOf(base))
 		return p.Interface()
+	// representations nested in each other
+	case "drop-of-drop":
+		return univ.Drop{V: &univ.PDrop{V: base}}
+	case "ptr-to-ptr":
+		p := reflect.New(reflect.TypeOf(base))
+		p.Elem().Set(reflect.ValueOf(base))
+		pp := reflect.New(p.Type())
+		pp.Elem().Set(p)
+		return pp.Interface()
+	case "ptr-to-pdrop":
+		p := &univ.PDrop{V: base}
+		return &p
+	case "ptr-to-drop":
+		return &univ.Drop{V: base}
 	}
 	return base
 }
